@@ -630,6 +630,94 @@ pub fn gen_cmd_case(r: &mut Rng, root: &str) -> Case17Cmd {
     Case17Cmd { docs, fs, recs, tags }
 }
 
+/// Layered documents for the N-fresh-process leg of C13: the 2-4 documents of a command case get
+/// paths that all occur in the SOURCE string as given - of equal length (different texts, or the
+/// very same text twice), of different lengths, or mixed - and scalars and rules that conflict,
+/// so that the order in which the matching documents are merged shows in the printed ledger.
+pub fn gen_layered_cmd_case(r: &mut Rng, root: &str) -> (Case17Cmd, &'static str) {
+    let mut c = gen_cmd_case(r, root);
+    let given = given_string(&c.fs, root);
+    let viseca = matches!(c.recs, CmdRecs::Viseca { .. });
+    let subs = |l: usize| -> Vec<String> {
+        let mut v: Vec<String> = Vec::new();
+        if l <= given.len() {
+            for a in 0..=given.len() - l {
+                if given.is_char_boundary(a) && given.is_char_boundary(a + l) {
+                    let t = given[a..a + l].to_string();
+                    if !v.contains(&t) {
+                        v.push(t);
+                    }
+                }
+            }
+        }
+        v
+    };
+    let n = c.docs.len();
+    let mode = r.below(8);
+    let l0 = 1 + r.below(5) as usize;
+    let mut pool = subs(l0);
+    r.shuffle(&mut pool);
+    let name = match mode {
+        0..=2 if pool.len() >= n => {
+            for (i, d) in c.docs.iter_mut().enumerate() {
+                d.path = pool[i].clone();
+            }
+            "all paths of equal length, all different"
+        }
+        3 | 4 if pool.len() >= 2 => {
+            // two of equal length, the others shorter or longer
+            let (i, j) = (r.below(n as u64) as usize, r.below(n as u64 - 1) as usize);
+            let j = if j >= i { j + 1 } else { j };
+            for (k, d) in c.docs.iter_mut().enumerate() {
+                if k == i {
+                    d.path = pool[0].clone();
+                } else if k == j {
+                    d.path = pool[1].clone();
+                } else {
+                    let l = if r.chance(1, 2) && l0 > 1 { r.below(l0 as u64) as usize } else { l0 + 1 + r.below(4) as usize };
+                    let p = subs(l.min(given.len()));
+                    d.path = p[r.below(p.len() as u64) as usize].clone();
+                }
+            }
+            "two paths of equal length, the others of other lengths"
+        }
+        5 if !pool.is_empty() => {
+            // the very same path twice (and a third of the same length when there is one)
+            for (i, d) in c.docs.iter_mut().enumerate() {
+                d.path = if i < 2 { pool[0].clone() } else { pool[(i - 1).min(pool.len() - 1)].clone() };
+            }
+            "the same path twice"
+        }
+        _ => {
+            let mut ls: Vec<usize> = (0..given.len().min(12)).collect();
+            r.shuffle(&mut ls);
+            for (i, d) in c.docs.iter_mut().enumerate() {
+                let p = subs(ls[i % ls.len()]);
+                d.path = p[r.below(p.len() as u64) as usize].clone();
+            }
+            "all paths of different lengths"
+        }
+    };
+    let off = r.below(3) as usize;
+    for (i, d) in c.docs.iter_mut().enumerate() {
+        if r.chance(3, 4) {
+            d.account = Some(SRC_ACCOUNTS[(i + off) % SRC_ACCOUNTS.len()].to_string());
+        }
+        if r.chance(1, 2) {
+            d.liability = Some(r.chance(1, 2));
+        }
+        if !viseca && r.chance(1, 3) {
+            d.commodity = Some(Commodity::Primary(COMMODITIES[(i + off) % COMMODITIES.len()].to_string()));
+        }
+        if d.rewrite.is_empty() || r.chance(1, 3) {
+            let rule = if viseca { gen_vis_rule(r) } else { gen_rule(r, 2) };
+            d.rewrite.push(rule);
+        }
+    }
+    c.tags.clear();
+    (c, name)
+}
+
 /// the scratch directory of the command leg: a fixed name, so that absolute SOURCE strings are the
 /// same from run to run (the driver serialises the runs of one tree)
 pub struct CmdScratch {
@@ -655,15 +743,15 @@ impl Drop for CmdScratch {
     }
 }
 
-struct ProcOut {
-    code: Option<i32>,
-    signal: Option<i32>,
-    timeout: bool,
-    stdout: String,
-    stderr: String,
+pub struct ProcOut {
+    pub code: Option<i32>,
+    pub signal: Option<i32>,
+    pub timeout: bool,
+    pub stdout: String,
+    pub stderr: String,
 }
 
-fn run_in(bin: &str, cwd: &Path, args: &[String], timeout_ms: u64) -> Result<ProcOut, String> {
+pub fn run_in(bin: &str, cwd: &Path, args: &[String], timeout_ms: u64) -> Result<ProcOut, String> {
     use std::io::Read;
     use std::os::unix::process::ExitStatusExt;
     use std::process::{Command, Stdio};
@@ -824,6 +912,83 @@ fn make_fs(dir: &Path, fs: &CmdFs, content: &str) -> Result<(), String> {
     }
     mk(&dir.join(&fs.cwd))?;
     Ok(())
+}
+
+/// The command of a case run `n` times in fresh processes: how many different (status, stdout,
+/// stderr) were seen, the KM term of the case with the first run's observation, a replay record,
+/// and how the first run ended.
+pub fn observe_cmd_n(c: &Case17Cmd, bin: &str, scratch: &CmdScratch, n: usize) -> (usize, String, serde_json::Value, &'static str) {
+    let root = scratch.root_str();
+    let given = given_string(&c.fs, &root);
+    let yaml = docs_yaml(&c.docs);
+    let (content, _kind) = match &c.recs {
+        CmdRecs::Csv { header, rows } => (csv_text(&[], header, rows, ',', false), "csv"),
+        CmdRecs::Viseca { recs } => (viseca_text(recs), "viseca"),
+    };
+    let dir = scratch.root.clone();
+    let _ = std::fs::remove_dir_all(&dir);
+    let mut seen: std::collections::BTreeSet<(Option<i32>, Option<i32>, bool, String, String)> = std::collections::BTreeSet::new();
+    let obs = (|| -> Result<CmdObs, String> {
+        make_fs(&dir, &c.fs, &content)?;
+        let cfg = dir.join("okane-import.yml");
+        std::fs::write(&cfg, &yaml).map_err(|e| format!("write config: {}", e))?;
+        let cwd = dir.join(&c.fs.cwd);
+        let args = vec!["import".to_string(), "--config".to_string(), cfg.to_string_lossy().into_owned(), given.clone()];
+        let mut first = None;
+        for _ in 0..n.max(1) {
+            let p = run_in(bin, &cwd, &args, 10_000)?;
+            seen.insert((p.code, p.signal, p.timeout, p.stdout.clone(), p.stderr.clone()));
+            if first.is_none() {
+                first = Some(observe(&p));
+            }
+        }
+        Ok(first.unwrap())
+    })();
+    let _ = std::fs::remove_dir_all(&dir);
+    let _ = std::fs::create_dir_all(&dir);
+    let obs = match obs {
+        Ok(x) => x,
+        Err(m) => CmdObs::Other(m),
+    };
+    let how = match &obs {
+        CmdObs::NoConfig => "no configuration matches",
+        CmdObs::BadConfig(_) => "merged configuration incomplete",
+        CmdObs::Ran(ImpObs::Ok(..)) => "printed a ledger",
+        CmdObs::Ran(ImpObs::Err(..)) => "import refused",
+        CmdObs::Ran(_) => "crashed",
+        CmdObs::Other(_) => "harness trouble",
+    };
+    let obs_term = match &obs {
+        CmdObs::NoConfig => "CmdNoConfig".to_string(),
+        CmdObs::BadConfig(k) => format!("(CmdBadConfig {})", k),
+        CmdObs::Ran(o) => format!("(CmdRan {})", imp_term(o)),
+        CmdObs::Other(_) => "CmdOther".to_string(),
+    };
+    let recs_term = match &c.recs {
+        CmdRecs::Csv { header, rows } => format!("(RecCsv {} {})", coq::list(header.iter().map(|h| s_term(h))), coq::list(rows.iter().map(|r| row_term(r, "%Y-%m-%d")))),
+        CmdRecs::Viseca { recs } => format!("(RecVis {})", coq::list(recs.iter().map(vrec_term))),
+    };
+    let rep = json!({
+        "config_yaml": yaml,
+        "source_as_given": given,
+        "current_directory": c.fs.cwd,
+        "file": c.fs.file,
+        "links": c.fs.links,
+        "statement": content,
+        "distinct_outputs": seen.len(),
+        "runs": n,
+        "outputs": seen.iter().take(3).map(|(code, sig, to, out, err)| json!({"exit": code, "signal": sig, "timeout": to, "stdout": out, "stderr": err})).collect::<Vec<_>>(),
+        "observed_first": match &obs {
+            CmdObs::NoConfig => json!("config matching ... not found"),
+            CmdObs::BadConfig(k) => json!({"invalid config": k}),
+            CmdObs::Ran(o) => imp_json(o),
+            CmdObs::Other(m) => json!({"harness": m}),
+        },
+        "cmd_case": serde_json::to_value(c).unwrap(),
+        "reproduce": "in an empty directory create `file` with `statement`, the `links` (link -> target), write config_yaml to a file, cd to `current_directory` and run several times: okane import --config <yaml> <source_as_given>",
+    });
+    let term = format!("KM {} {} {} {}", coq::list(c.docs.iter().map(|d| d.term())), s_term(&given), recs_term, obs_term);
+    (seen.len(), term, rep, how)
 }
 
 pub fn emit_cmd(sh: &mut Shards, st: &mut Stats, c: &Case17Cmd, tag: &str, bin: &str, scratch: &CmdScratch) {
